@@ -15,4 +15,35 @@ theorem old_keeps_negative : keptOld [-500, 1500] = true ∧ allNonneg [-5000000
 /-- (0.3333, 0.3333, 0.3334) sums to one but is replaced -/
 theorem old_replaces_proper : keptOld [333, 333, 333] = false ∧ sum [333300000, 333300000, 333400000] = one := by decide
 
+/-! Reading the in-transit list and the finished list at two different instants (not inside
+one `comp_lock` critical section) breaks the hypothesis of `progress_of_partition_le_one`. -/
+
+/-- weights (0.1, 0.8, 0.1), current stage 0 complete; stage 1 is read as in transit (its
+progress already 1.0), completes, and is then read as finished too: it is counted twice and
+the reported total is 1.7 > 1. -/
+theorem double_count_without_disjointness :
+    checkTotal 1000 0 [1] [1] (readOf [1000, 1000, 0]) [100000000, 800000000, 100000000] = 1700 * one ∧
+    ¬ (checkTotal 1000 0 [1] [1] (readOf [1000, 1000, 0]) [100000000, 800000000, 100000000]
+        ≤ 1000 * sum [100000000, 800000000, 100000000]) := by decide
+
+/-- the other order (finished list first, in-transit list later): a stage that completes in
+between is in neither list and its weight is lost: the total (0.1) is below the progress of
+every state the controller went through (0.9). -/
+theorem lost_stage_without_snapshot :
+    checkTotal 1000 0 [] [] (readOf [1000, 0, 0]) [100000000, 800000000, 100000000] = 100 * one ∧
+    wsum (readOf [1000, 1000, 0]) [100000000, 800000000, 100000000] = 900 * one := by decide
+
+/-- a finished list with a repetition counts the stage twice as well -/
+theorem double_count_with_repetition :
+    ¬ (checkTotal 1000 0 [] [1, 1] (readOf [0, 0]) [200000000, 800000000] ≤ 1000 * sum [200000000, 800000000]) := by
+  decide
+
+/-- Twelve stages lined up by the lexicographic order of their names (stage0, stage1, stage10,
+stage11, stage2, …): the list passes `StatusMonitor`'s re-check (`proper`) but position 2 holds
+the weight of stage 10 — not what `monitor_keeps_loaded` states. -/
+theorem lexicographic_order_passes_recheck :
+    let loaded : List Int := [10, 10, 10, 10, 10, 10, 10, 10, 10, 10, 10, 890].map (· * 1000000)
+    let lex : List Int := [10, 10, 10, 890, 10, 10, 10, 10, 10, 10, 10, 10].map (· * 1000000)
+    proper loaded = true ∧ proper lex = true ∧ monitorWeights loaded = some loaded ∧ lex ≠ loaded := by decide
+
 end St4sd.C20.Witness
